@@ -109,6 +109,9 @@ type VSim struct {
 	OnMetadata func(ctx *VSimReqCtx) VSimConnAction        // per metadata request (after OnRequest)
 	OnGroup    func(ctx *VSimGroupCtx) VSimGroupAction     // join/sync/heartbeat/leave/commit/offset-fetch/find-coordinator
 	OnAdmin    func(ctx *VSimAdminCtx) VSimAdminAction
+	// OnListOffsets: error code to answer for one partition of a ListOffsets request (0 = answer normally).
+	// Called with the cluster lock held: must not block.
+	OnListOffsets func(topic string, partition int32) KError
 
 	groups map[string]*vsGroup
 	admin  vsAdminState
@@ -798,6 +801,15 @@ func (s *VSim) handleListOffsets(b *VSimBroker, connID int64, r *OffsetRequest) 
 				res.Blocks[t][pid].Err = ErrNotLeaderForPartition
 				res.Blocks[t][pid].Offsets = nil
 				continue
+			}
+			if s.OnListOffsets != nil {
+				if code := s.OnListOffsets(t, pid); code != ErrNoError {
+					res.AddTopicPartition(t, pid, 0)
+					res.Blocks[t][pid].Err = code
+					res.Blocks[t][pid].Offsets = nil
+					s.logEvent("list-offsets", b.ID, connID, map[string]interface{}{"topic": t, "partition": pid, "time": blk.time, "code": int16(code)})
+					continue
+				}
 			}
 			off := part.base + int64(len(part.log))
 			if blk.time == OffsetOldest {
